@@ -406,7 +406,20 @@ def _probe_refusals_checks_off():
         check_case(case)
 
 
+def _probe_failed_checks_must_raise():
+    """each of the two later checks, when it is the only one enabled and cannot succeed, must make login() raise:
+    a server that goes silent after something the optimistic prompt pattern accepts / after a password"""
+    base = {'kind': 'random', 'text_mode': False, 'options': {}, 'commands': []}
+    o = {'quiet': True, 'port': None, 'ssh_key': None, 'check_local_ip': True}
+    for steps in ([['banner', BANNERS_TRICKY[3]], ['silence', 30]], [['password'], ['silence', 30]],
+                  [['banner', BANNERS_TRICKY[1]], ['closed']]):
+        check_case(dict(base, steps=steps, opts=dict(o, auto_prompt_reset=False, sync_original_prompt=True)))
+        check_case(dict(base, steps=steps, opts=dict(o, auto_prompt_reset=True, sync_original_prompt=False)))
+
+
 PROBES = [
+    ('probe:failed-later-check-raises', 'a silent or closed server with exactly one of sync_original_prompt / auto_prompt_reset '
+     'enabled: that check fails and login() must raise', _probe_failed_checks_must_raise),
     ('probe:refusals-with-checks-off', 'refusals / closed connections with sync_original_prompt=False and auto_prompt_reset=False '
      'must raise', _probe_refusals_checks_off),
     ('probe:canonical-dialogues', 'the documented happy paths and a refused password', _probe_canonical),
